@@ -14,7 +14,7 @@ one() {
   python3 - "$d/meta.json" <<'PY' || exit 0
 import json,sys
 m=json.load(open(sys.argv[1]))
-ok=m.get("applies") and m.get("compiles") and m.get("existing_suite_passes_with_change") and m.get("demo_fails_with_change") and m.get("demo_passes_without_change")
+ok=not m.get("excluded") and m.get("applies") and m.get("compiles") and m.get("existing_suite_passes_with_change") and m.get("demo_fails_with_change") and m.get("demo_passes_without_change")
 sys.exit(0 if ok else 1)
 PY
   SW=/tmp/seedmx.$id.$$; SC=$V/.work/mx.$id.$$
